@@ -4,8 +4,19 @@ from contracts import handlers as H
 
 def build(P):
     P.category = "other"
+    from props import C02
+    from contracts import records as R0, engine as E0
+    C02.setup(P)
+    # a successful end releases the execution's join state (the failing end hands it to check_pending_results)
+    P.verify(E0.SE + "StateEngine.end_execution", R0.end_execution_contract(), tags=("C03",))
     H.setup(P)
     H.add_handlers(P, ("C03",))
+    from contracts import dispatcher as D, records as R
+    D.externals(P.reg)
+    D.launch_externals(P.reg)
+    R.abstract_arn(P.reg)
+    P.verify(D.ET + "asl_service_rpcmessage", D.rpcmessage_contract(), tags=("C03",), timeout=30)
+    P.verify(D.ET + "asl_service_states_startExecution", D.start_execution_launch_contract(), tags=("C03",), timeout=30)
     P.native("quiescence-invariants", "natives.c01:corpus", kind="bounded", clause="C03:", timeout=900,
              bound="the C01 corpus (about 70 machines x 2 inputs x schedules) on the real engine + task dispatcher: at quiescence "
                    "nothing is unacknowledged, no join state / cancellers are left, no exception escaped")
